@@ -12,6 +12,8 @@ import torch
 from gpytorch import kernels as K
 from gpytorch import likelihoods as L
 from gpytorch import means as M
+from gpytorch import constraints as CN
+from gpytorch import priors as PR
 from gpytorch.distributions import MultitaskMultivariateNormal, MultivariateNormal
 
 DT = torch.float64
@@ -153,11 +155,40 @@ class ZooExactGP(gpytorch.models.ExactGP):
         return MultivariateNormal(mean, covar)
 
 
+def prior_kwargs(recipe, variant=0):
+    """Constructor kwargs for priors / constraints.  `variant` changes only *numbers* (prior parameters, bounds): those
+    are buffers and must travel in a state_dict, so a restored model built with variant 1 must end up equal to the
+    original built with variant 0 (C18)."""
+    if recipe.get("priors") != "ctor":
+        return {}, {}, {}
+    a, b = 2.0 + variant, 3.0 + 2.0 * variant
+    lik_kw = {"noise_prior": PR.GammaPrior(a, b), "noise_constraint": CN.GreaterThan(1e-4 if variant == 0 else 2e-3)}
+    ls_kw = {"lengthscale_prior": PR.GammaPrior(a + 1.0, b), "lengthscale_constraint": CN.GreaterThan(1e-3 * (1 + 4 * variant))}
+    os_kw = {"outputscale_prior": PR.LogNormalPrior(0.3 * variant, 1.0), "outputscale_constraint": CN.Interval(1e-3, 50.0 + 25.0 * variant)}
+    return lik_kw, ls_kw, os_kw
+
+
+def named_priors(model, recipe, variant=0):
+    """Priors registered through the name-based public API register_prior(name, prior, "<param>")."""
+    if recipe.get("priors") != "named":
+        return model
+    a, b = 2.0 + variant, 3.0 + 2.0 * variant
+    lik = model.likelihood
+    nc = getattr(lik, "noise_covar", None)
+    if nc is not None and hasattr(type(nc), "noise") and "raw_noise" in dict(nc.named_parameters(recurse=False)):
+        nc.register_prior("noise_prior", PR.GammaPrior(a, b), "noise")
+    cm = model.covar_module
+    if isinstance(cm, K.ScaleKernel):
+        cm.register_prior("outputscale_prior", PR.GammaPrior(a + 1.0, b), "outputscale")
+    return model.double()
+
+
 BASE_KERNELS = ["rbf", "matern05", "matern15", "matern25", "rq", "periodic", "sum", "prod", "linear_rbf", "scaled_sum"]
 
 
-def _base_kernel(kind, d, ard, batch, active_dims=None):
+def _base_kernel(kind, d, ard, batch, active_dims=None, ls_kw=None):
     kw = {"batch_shape": torch.Size(batch)}
+    kw.update(ls_kw or {})
     if ard:
         kw["ard_num_dims"] = d if active_dims is None else len(active_dims)
     if active_dims is not None:
@@ -196,7 +227,7 @@ def fixed_noise_vector(seed, batch, n):
     return 0.05 + 0.3 * rand(seed + 77, *batch, n)
 
 
-def build_exact(recipe, data=None):
+def build_exact(recipe, data=None, variant=0):
     """recipe -> model (training mode, float64).  `data` overrides the recipe's training data:
     dict(inputs=tuple, targets=tensor, fixed_noise=tensor|None)."""
     fam = recipe["family"]
@@ -224,11 +255,12 @@ def build_exact(recipe, data=None):
     else:
         inputs, y, fixed = data["inputs"], data["targets"], data.get("fixed_noise")
     # ---- likelihood
+    lik_kw, ls_kw, os_kw = prior_kwargs(recipe, variant)
     lk = recipe["lik"]
     if fam == "multitask":
         lik = L.MultitaskGaussianLikelihood(num_tasks=tasks, rank=recipe.get("lik_rank", 0), batch_shape=torch.Size(batch))
     elif lk == "gaussian":
-        lik = L.GaussianLikelihood(batch_shape=torch.Size(batch))
+        lik = L.GaussianLikelihood(batch_shape=torch.Size(batch), **lik_kw)
     elif lk == "fixed":
         lik = L.FixedNoiseGaussianLikelihood(noise=fixed, batch_shape=torch.Size(batch))
     elif lk == "fixed_learn":
@@ -237,11 +269,11 @@ def build_exact(recipe, data=None):
         raise ValueError(lk)
     # ---- kernel
     ard = recipe.get("ard", False)
-    base = _base_kernel(recipe.get("kernel", "rbf"), d, ard, batch, recipe.get("active_dims"))
+    base = _base_kernel(recipe.get("kernel", "rbf"), d, ard, batch, recipe.get("active_dims"), ls_kw if recipe.get("kernel") in ("rbf", "matern05", "matern15", "matern25", "rq") else None)
     mean = _mean(recipe.get("mean", "constant"), d, batch)
     mt = 0
     if fam == "default":
-        covar = K.ScaleKernel(base, batch_shape=torch.Size(batch)) if recipe.get("scale", True) else base
+        covar = K.ScaleKernel(base, batch_shape=torch.Size(batch), **os_kw) if recipe.get("scale", True) else base
     elif fam == "kissgp":
         gb = recipe.get("grid_bounds")
         covar = K.ScaleKernel(
@@ -271,6 +303,7 @@ def build_exact(recipe, data=None):
         model.task_covar_module = K.IndexKernel(num_tasks=tasks, rank=recipe.get("rank", 1))
     model = model.double()
     model.likelihood = model.likelihood.double()
+    model = named_priors(model, recipe, variant)
     return model
 
 
@@ -331,6 +364,11 @@ def gen_exact_recipe(rng, families=None, small=True):
         r["batch"] = rng.choice([[], [], [2], [3]])
         r["lik"] = rng.choice(["gaussian", "gaussian", "fixed", "fixed_learn"])
         r["scale"] = rng.random() < 0.8
+        pr = rng.random()
+        if pr < 0.2:
+            r["priors"] = "ctor"
+        elif pr < 0.3:
+            r["priors"] = "named"
         if r["d"] >= 2 and rng.random() < 0.3:
             k = rng.randint(1, r["d"] - 1)
             r["active_dims"] = sorted(rng.sample(range(r["d"]), k))
@@ -378,7 +416,7 @@ VAR_DISTS = ["cholesky", "meanfield", "delta", "natural", "tril_natural"]
 
 
 class ZooSVGP(gpytorch.models.ApproximateGP):
-    def __init__(self, recipe):
+    def __init__(self, recipe, variant=0):
         d, m = recipe["d"], recipe["m"]
         strat = recipe["strategy"]
         ds = recipe["data_seed"]
@@ -428,19 +466,21 @@ class ZooSVGP(gpytorch.models.ApproximateGP):
         kbatch = list(vbatch)
         if strat == "batch_decoupled":
             kbatch = [2]
+        _, ls_kw, os_kw = prior_kwargs(recipe, variant)
         self.mean_module = _mean(recipe.get("mean", "constant"), d, kbatch)
-        base_k = _base_kernel(recipe.get("kernel", "rbf"), d, recipe.get("ard", False), kbatch)
-        self.covar_module = K.ScaleKernel(base_k, batch_shape=torch.Size(kbatch))
+        base_k = _base_kernel(recipe.get("kernel", "rbf"), d, recipe.get("ard", False), kbatch, None, ls_kw)
+        self.covar_module = K.ScaleKernel(base_k, batch_shape=torch.Size(kbatch), **os_kw)
 
     def forward(self, x):
         FAULTS.hit("forward")
         return MultivariateNormal(self.mean_module(x), self.covar_module(x))
 
 
-def build_variational(recipe):
+def build_variational(recipe, variant=0):
     """recipe -> (model with .likelihood attribute, training data x, y) in training mode, float64."""
     torch.manual_seed(recipe.get("init_seed", 0))
-    model = ZooSVGP(recipe)
+    model = ZooSVGP(recipe, variant)
+    lik_kw, _, _ = prior_kwargs(recipe, variant)
     strat = recipe["strategy"]
     if recipe["lik"] == "bernoulli":
         lik = L.BernoulliLikelihood()
@@ -449,9 +489,10 @@ def build_variational(recipe):
     elif strat == "indep_mt":
         lik = L.MultitaskGaussianLikelihood(num_tasks=recipe["latents"])
     else:
-        lik = L.GaussianLikelihood()
+        lik = L.GaussianLikelihood(**lik_kw)
     model.likelihood = lik
     model = model.double()
+    model = named_priors(model, recipe, variant)
     return model
 
 
@@ -494,6 +535,11 @@ def gen_variational_recipe(rng, strategies=None):
         r["grid_size"] = rng.choice([4, 5]) if r["d"] == 1 else 4
         r["dist"] = rng.choice(["cholesky", "meanfield"])
         r["learn_z"] = False
+    pr = rng.random()
+    if pr < 0.2:
+        r["priors"] = "ctor"
+    elif pr < 0.3:
+        r["priors"] = "named"
     if strat in ("lmc", "indep_mt"):
         r["latents"] = rng.choice([2, 3])
         r["tasks"] = rng.choice([2, 3, 4])
